@@ -11,6 +11,12 @@
 //! - **client**: Client implementation
 //! - **server**: Server implementation
 
+// --- verification seams (inert unless built with `--cfg anytls_verif`; see /verif/DESIGN.md) ---
+// H1: inside this crate `tokio::net` and `tokio::spawn` resolve to the simulator, everything else
+// is re-exported from the real tokio.
+#[cfg(anytls_verif)]
+extern crate anytls_simnet as tokio;
+
 /// Client implementation
 pub mod client;
 /// Padding module for traffic obfuscation
